@@ -16,10 +16,10 @@
    `outs th` is the record of the operations thread `th` has completed, with their results.
    `reach maxh progs s` := exists sched, s = run maxh sched (init maxh progs). *)
 From Coq Require Import NArith ZArith List Bool Arith Lia Permutation Sorted.
-From Blue Require Import Gen.Const_SkipList SkipList.Model SkipList.ModelList SkipList.ModelLife.
+From Blue Require Import Gen.Const_SkipList SkipList.Model SkipList.ModelList SkipList.ModelOwn.
 From Blue Require Import SkipList.ProofsBase SkipList.ProofsInv SkipList.ProofsStep SkipList.ProofsGlobal.
 From Blue Require Import SkipList.ProofsSpec SkipList.ProofsHist SkipList.ProofsMain SkipList.ProofsList.
-From Blue Require Import SkipList.ProofsLife SkipList.ProofsGhost.
+From Blue Require Import SkipList.ProofsOwn SkipList.ProofsGhost.
 Import ListNotations.
 
 (* every insert that has returned (by state s1) is found by every search that completes later *)
@@ -51,12 +51,22 @@ Proof. exact no_panic. Qed.
 Theorem C17_step_linearizable : forall maxh, 1 <= maxh -> forall progs, progs_ok maxh progs -> NoDup (all_ins_keys progs) -> forall s t s' e, reach maxh progs s -> step maxh t s = Some (s', e) -> exists th th', nth_error (sthreads s) t = Some th /\ nth_error (sthreads s') t = Some th' /\ (outs th' = outs th \/ exists r, outs th' = outs th ++ [r] /\ res_ok (keys0 (smem s)) (keys0 (smem s')) r).
 Proof. exact step_linearizable. Qed.
 
-(* seek, next and prev move to the nearest existing key in their direction: every recorded
-   result satisfies its specification for a key set between the empty set and the present one
-   (hist: in the order of the records, key sets only growing), and every next/prev started from
-   where the previous iterator operation of that thread left the iterator (froms_ok) *)
-Theorem C17_seek_next_prev_nearest : forall maxh, 1 <= maxh -> forall progs, progs_ok maxh progs -> NoDup (all_ins_keys progs) -> forall s t th, reach maxh progs s -> nth_error (sthreads s) t = Some th -> hist [] (outs th) (keys0 (smem s)) /\ froms_ok AtEnd (outs th) /\ forall r, In r (outs th) -> exists K K', incl K K' /\ incl K' (keys0 (smem s)) /\ res_ok K K' r.
-Proof. exact results_all. Qed.
+(* seek, next and prev move to the nearest existing key in their direction: the results rs that a
+   thread records after ANY reachable state s1 each satisfy their specification (res_ok) for a
+   key set that contains everything that was in the list at s1 and is contained in the present
+   one (hist (keys0 s1) rs (keys0 s2): the moments are in the order of the records, the key sets
+   only grow — so a stale answer computed from an older, smaller key set does not meet it), and
+   every next/prev started from where the previous iterator operation of that thread left the
+   iterator (froms_ok).  With s1 the initial state this speaks about everything ever recorded. *)
+Theorem C17_seek_next_prev_nearest : forall maxh, 1 <= maxh -> forall progs, progs_ok maxh progs -> NoDup (all_ins_keys progs) -> forall s1 sched t th1, reach maxh progs s1 -> nth_error (sthreads s1) t = Some th1 -> exists th2 rs, nth_error (sthreads (run maxh sched s1)) t = Some th2 /\ outs th2 = outs th1 ++ rs /\ hist (keys0 (smem s1)) rs (keys0 (smem (run maxh sched s1))) /\ froms_ok (last_ipos (outs th1) AtEnd) rs.
+Proof. exact results_between. Qed.
+
+(* a full backward iteration (seek_to_last, then prev, prev, ...) completed after s1 yields strictly
+   decreasing keys, each once, all of them keys of the list; and if it ran to the front, every key
+   that was in the list at s1 — in particular every key whose insert had returned by s1 — is
+   among them *)
+Theorem C17_backward_iteration_sorted_once : forall maxh, 1 <= maxh -> forall progs, progs_ok maxh progs -> NoDup (all_ins_keys progs) -> forall s1 sched t tha thb f y0 rs, reach maxh progs s1 -> nth_error (sthreads s1) t = Some tha -> nth_error (sthreads (run maxh sched s1)) t = Some thb -> outs thb = outs tha ++ RLast :: RPrev f y0 :: rs -> Forall is_prev rs -> let ys := somes (y0 :: map res_key rs) in StronglySorted N_gt ys /\ NoDup ys /\ (forall y, In y ys -> In y (keys0 (smem (run maxh sched s1)))) /\ (last (y0 :: map res_key rs) None = None -> (forall k, In k (keys0 (smem s1)) -> In k ys) /\ (forall t1 th1 k, nth_error (sthreads s1) t1 = Some th1 -> In (RIns k) (outs th1) -> In k ys)).
+Proof. exact backward_iteration_sorted_once. Qed.
 
 (* the key set only grows, and contains only keys that some insert operation inserted *)
 Theorem C17_keys_grow_only_inserted : forall maxh, 1 <= maxh -> forall progs, progs_ok maxh progs -> NoDup (all_ins_keys progs) -> forall s sched, reach maxh progs s -> incl (keys0 (smem s)) (keys0 (smem (run maxh sched s))) /\ (forall k, In k (keys0 (smem s)) -> In k (all_ins_keys progs)) /\ (forall t th k, nth_error (sthreads s) t = Some th -> In (RIns k) (outs th) -> In k (keys0 (smem s))).
@@ -111,14 +121,27 @@ Proof.
 Qed.
 
 (* ------------------------------------------------------------------ iterator lifetime *)
-(* with the nodes owned by the body that list and iterators share (the repaired code), no use of a
-   live handle ever touches freed nodes, for any sequence of creations, clones, drops and uses *)
-Theorem C17_iterator_valid_while_held : forall ops, ~ In LUaf (life_run life_step life_init ops).
-Proof. intros. apply life_no_uaf. apply life_init_inv. Qed.
+(* ModelOwn.v puts the ownership of the repaired code on top of the small-step model: every thread
+   holds a handle on the body (its share of the list, its iterator, or a clone of an iterator);
+   schedules interleave the atomic steps of the operations with handle drops (between operations)
+   and iterator clones; the nodes are freed when the LAST handle goes; a step taken while the nodes
+   are freed is OUaf.  For every such schedule: no step of a thread that still holds a handle
+   touches freed nodes, nothing panics, all invariants hold, and the nodes are freed only when
+   nobody holds a handle.
+   What this does NOT establish about the Rust source — that `Body::drop` is the only code that
+   frees nodes, that `SkipList::drop` frees nothing, that `#[derive(Clone)]` on the iterator copies
+   the Arc — is checked on the real code by the node-lifetime registry of the harness (sk-life:
+   every dereference of a freed node is reported), not by a theorem. *)
+Theorem C17_iterator_valid_while_held : forall maxh progs acts s os, 1 <= maxh -> progs_ok maxh progs -> NoDup (all_ins_keys progs) -> orun maxh true (oinit maxh progs) acts = (s, os) -> ~ In OUaf os /\ inv maxh (all_ins_keys progs) (obase s) /\ (forall t th, nth_error (sthreads (obase s)) t = Some th -> tpc th <> PPanic /\ ~ In RPanic (outs th)) /\ (ofreed s = true -> forall t, nth t (oholds s) false = false).
+Proof. exact own_safe. Qed.
 
-(* F4: the code before the fix (SkipList::drop frees the nodes) did not have this property *)
-Theorem C17_iterator_valid_before_fix_refuted : exists ops, In LUaf (life_run old_step life_init ops).
-Proof. exists [LfIter; LfDropList; LfUse 0]. exact old_life_uaf. Qed.
+(* F4: the code before the fix (SkipList::drop frees the nodes whatever iterators exist; `false`
+   selects that behaviour) did not have this property *)
+Theorem C17_iterator_valid_before_fix_refuted : exists maxh progs acts, 1 <= maxh /\ progs_ok maxh progs /\ NoDup (all_ins_keys progs) /\ In OUaf (snd (orun maxh false (oinit maxh progs) acts)).
+Proof.
+  exists 2, [[OInsert 1%N 1]; [OFirst]], (repeat (ARun 0) 7 ++ [ADrop 0; ARun 1]).
+  split; [lia|]. split; [repeat constructor; cbn; lia|]. split; [repeat constructor; cbn; tauto|exact own_old_uaf].
+Qed.
 
 (* ------------------------------------------------------------------ the hypotheses are satisfiable *)
 (* two threads insert the neighbouring keys 5 and 6 (height 2, MAX_HEIGHT as in the source); the
